@@ -108,6 +108,7 @@ func getEventsPath(dir string) string {
 
 func loadGraph(dir string) (*Graph, error) {
 	eventsPath := getEventsPath(dir)
+	verifPoint("read.resolved")
 	events, err := readEvents(eventsPath)
 	if err != nil {
 		return nil, err
